@@ -1211,44 +1211,60 @@ spec fn lockOf(s *SymbolTableStruct) int = ghost(lockstate, &s.mutex)
 spec fn symOf(s *SymbolTableStruct, n string) Symbol = s.nameTable[n]
 spec fn bij(s *SymbolTableStruct) bool = (forall n string :: mapHas(s.nameTable, n) ==> 0 <= symOf(s, n) && symOf(s, n) < len(s.idTable) && streq(elem(s.idTable, symOf(s, n)), n)) && (forall i int :: 0 <= i && i < len(s.idTable) ==> mapHas(s.nameTable, elem(s.idTable, i)) && symOf(s, elem(s.idTable, i)) == i)
 
+// The table is a monitor: whatever a thread knows about it is only what the monitor invariant
+// and the rely relation give once it (re)acquires the lock.  Other threads only ever add
+// bindings (rely); every writer leaves the two tables inverse to each other (invariant).
+monitor SymbolTableStruct.mutex(s)
+  requires nn: s.nameTable != nil
+  requires bij: bij(s)
+  ensures names: forall n string :: old(mapHas(s.nameTable, n)) ==> mapHas(s.nameTable, n) && symOf(s, n) == old(symOf(s, n))
+  ensures ids: len(s.idTable) >= old(len(s.idTable)) && (forall i int :: 0 <= i && i < old(len(s.idTable)) ==> streq(elem(s.idTable, i), old(elem(s.idTable, i))))
+  ensures map: s.nameTable == old(s.nameTable)
+
+// old(...) is the table as the caller last knew it, atlock(...) the table the critical section
+// found: a binding known before is found again; a hit or a miss is about the table found
 func (*SymbolTableStruct).Get
   props C26 C11
-  requires s != nil && s.nameTable != nil && lockOf(s) == 0
+  requires s != nil && lockOf(s) == 0
   ensures balance: lockOf(s) == 0
   ensures found: old(mapHas(s.nameTable, name)) ==> ret1 && ret0 == old(symOf(s, name))
-  ensures missing: !old(mapHas(s.nameTable, name)) ==> !ret1 && ret0 == -1
-  ensures frame: s.nameTable == old(s.nameTable) && s.idTable == old(s.idTable)
+  ensures hit: ret1 ==> atlock(mapHas(s.nameTable, name)) && ret0 == atlock(symOf(s, name))
+  ensures missing: !ret1 ==> !atlock(mapHas(s.nameTable, name)) && ret0 == -1
 
 func (*SymbolTableStruct).GetName
   props C26 C11
   requires s != nil && lockOf(s) == 0
   ensures balance: lockOf(s) == 0
   ensures found: 0 <= symbol && symbol < old(len(s.idTable)) ==> ret1 && streq(ret0, old(elem(s.idTable, symbol)))
-  ensures missing: !(0 <= symbol && symbol < old(len(s.idTable))) ==> !ret1
+  ensures hit: ret1 ==> 0 <= symbol && symbol < atlock(len(s.idTable)) && streq(ret0, atlock(elem(s.idTable, symbol)))
+  ensures missing: !ret1 ==> !(0 <= symbol && symbol < atlock(len(s.idTable)))
 
-// interning: an existing name keeps its symbol and nothing changes; a new name gets the next
-// id, every existing binding is preserved, and the tables remain inverse to each other
+// interning: a name that has a symbol keeps it; a name the critical section does not find gets
+// the next id; every binding that existed is preserved and the tables stay inverse to each
+// other (monitor invariant and guarantee, proved at the unlock)
 func (*SymbolTableStruct).Add
   props C26 C11
-  requires s != nil && s.nameTable != nil && lockOf(s) == 0 && bij(s)
+  requires s != nil && lockOf(s) == 0
   ensures balance: lockOf(s) == 0
   ensures inv: bij(s)
   ensures result: mapHas(s.nameTable, name) && symOf(s, name) == ret
-  ensures existing: old(mapHas(s.nameTable, name)) ==> ret == old(symOf(s, name)) && s.idTable == old(s.idTable)
-  ensures fresh: !old(mapHas(s.nameTable, name)) ==> ret == old(len(s.idTable)) && len(s.idTable) == old(len(s.idTable)) + 1
+  ensures existing: old(mapHas(s.nameTable, name)) ==> ret == old(symOf(s, name))
+  ensures present: atlock(mapHas(s.nameTable, name)) ==> ret == atlock(symOf(s, name)) && len(s.idTable) == atlock(len(s.idTable))
+  ensures fresh: !atlock(mapHas(s.nameTable, name)) ==> ret == atlock(len(s.idTable)) && len(s.idTable) == atlock(len(s.idTable)) + 1
   ensures stable: forall n string :: old(mapHas(s.nameTable, n)) ==> mapHas(s.nameTable, n) && symOf(s, n) == old(symOf(s, n))
   ensures ids: forall i int :: 0 <= i && i < old(len(s.idTable)) ==> streq(elem(s.idTable, i), old(elem(s.idTable, i)))
 
 func (*SymbolTableStruct).Exists
   props C26 C11
-  requires s != nil && s.nameTable != nil && lockOf(s) == 0
+  requires s != nil && lockOf(s) == 0
   ensures balance: lockOf(s) == 0
-  ensures ret <==> old(mapHas(s.nameTable, name))
+  ensures known: old(mapHas(s.nameTable, name)) ==> ret
 
 func (*SymbolTableStruct).ExistsId
   props C26 C11
   requires s != nil && lockOf(s) == 0
   ensures balance: lockOf(s) == 0
+  ensures sound: ret ==> 0 <= symbol && symbol < atlock(len(s.idTable))
 
 // ==== C25: sync primitives under misuse ======================================================
 // Unlocking a native mutex that is not held is a fatal error no recover() can stop, so the
